@@ -133,7 +133,10 @@ class RZILTransformer(Transformer):
         if op.get_name() in self.parameters:
             raise ValueError(f"Operand {op.get_name()} already defined as parameter.")
         elif self.il_ops_holder.has_op(op.get_name()):
-            return self.il_ops_holder.get_op_by_name(op.get_name())
+            known = self.il_ops_holder.get_op_by_name(op.get_name())
+            if known is op or type(known) is type(op):
+                return known
+            # Otherwise a variable is named like the op (e.g. "seq"). The op gets its unique name below.
 
         num_id = self.il_ops_holder.get_op_count()
         op.set_num_id(num_id)
